@@ -532,7 +532,110 @@ def _r7(model, res, c, g):
 # ---------------------------------------------------------------------------------------------------
 # R9: no rewriting pass between parse(text) and the lexer
 
-def _r9(model, res, c):
+CONTENT_METHODS = ('translate', 'replace', 'upper', 'lower', 'casefold', 'title', 'swapcase', 'capitalize', 'expandtabs', 'encode')
+CONTENT_FUNCS = ('re.sub', 're.subn', 'unicodedata.normalize', 'regex.sub', 'str.translate', 'str.replace', 'str.upper', 'str.lower',
+                 'str.casefold')
+
+
+def content_transform(model, m, f, e, depth=0, seen=None):
+    """Source text of the step when expression ``e`` (in function ``f``) is the result of a whole-text transformation of a value that
+    comes from a parameter of ``f`` - one that applies to every character of the text, quoted or not.  None otherwise (unknown
+    steps count as 'not known to be one')."""
+    seen = seen if seen is not None else set()
+    if depth > 4 or id(e) in seen:
+        return None
+    seen.add(id(e))
+    if isinstance(e, ast.Name):
+        for st_, val_ in sa.assignments_to(f, e.id):
+            if val_ is not None:
+                hit = content_transform(model, m, f, val_, depth + 1, seen)
+                if hit:
+                    return hit
+        return None
+    if isinstance(e, ast.IfExp):
+        return content_transform(model, m, f, e.body, depth + 1, seen) or content_transform(model, m, f, e.orelse, depth + 1, seen)
+    if isinstance(e, ast.BoolOp):
+        for v in e.values:
+            hit = content_transform(model, m, f, v, depth + 1, seen)
+            if hit:
+                return hit
+        return None
+    if not isinstance(e, ast.Call):
+        return None
+    params = set(sa.params(f))
+
+    def from_param(x):
+        names = set(n.id for n in ast.walk(x) if isinstance(n, ast.Name))
+        if names & params:
+            return True
+        return any(val_ is not None and from_param(val_) for nm in names for st_, val_ in sa.assignments_to(f, nm)) if depth < 3 else False
+    name = sa.call_name(e) or ''
+    if isinstance(e.func, ast.Attribute) and e.func.attr in CONTENT_METHODS and from_param(e.func.value):
+        return src(e)[:70]
+    r = model.resolve_attr_chain(m, e.func) if isinstance(e.func, (ast.Name, ast.Attribute)) else None
+    full = (r[1] + '.' + r[2]) if r is not None and r[0] == 'extattr' else None
+    if (isinstance(e.func, ast.Attribute) and e.func.attr in ('sub', 'subn')) or full in ('re.sub', 're.subn', 'regex.sub'):
+        # a substitution with a fixed replacement applies wherever the pattern matches; one computed per match by a function may well
+        # tell quoted stretches from the rest - not known to be a whole-text transformation
+        repl = e.args[1] if full is not None and len(e.args) > 1 else (e.args[0] if e.args else None)
+        if isinstance(repl, ast.Constant) and isinstance(repl.value, str) and any(from_param(a) for a in e.args):
+            return src(e)[:70]
+        return None
+    if full in CONTENT_FUNCS and any(from_param(a) for a in e.args):
+        return src(e)[:70]
+    if isinstance(e.func, ast.Attribute) and e.func.attr == 'join' and len(e.args) == 1 and \
+            isinstance(e.args[0], (ast.GeneratorExp, ast.ListComp)) and len(e.args[0].generators) == 1 and \
+            from_param(e.args[0].generators[0].iter) and not e.args[0].generators[0].ifs:
+        return src(e)[:70]
+    # a receiver that is itself a transformed text:  text.translate(T).strip()
+    if isinstance(e.func, ast.Attribute):
+        hit = content_transform(model, m, f, e.func.value, depth + 1, seen)
+        if hit:
+            return hit
+    # a helper of the package: what it returns
+    callee = None
+    if r is not None and r[0] == 'func':
+        callee = (r[1], r[2])
+    elif isinstance(e.func, ast.Attribute) and isinstance(e.func.value, ast.Name) and e.func.value.id == sa.self_name(f):
+        owner = m.enclosing_class(f) if hasattr(m, 'enclosing_class') else None
+        if owner is not None:
+            lm = model.lookup_method(m, owner, e.func.attr)
+            if lm:
+                callee = (lm[0], lm[2])
+    if callee is not None and any(from_param(a) for a in list(e.args) + [k.value for k in e.keywords]):
+        cm, cf = callee
+        for n in walk_no_defs(cf):
+            if isinstance(n, ast.Return) and n.value is not None:
+                hit = content_transform(model, cm, cf, n.value, depth + 1, seen)
+                if hit:
+                    return '%s -> %s' % (src(e)[:40], hit)
+    return None
+
+
+def literal_text_rule(model, res, c, R, what):
+    """The part of R9 that the properties about text VALUES depend on: no whole-text transformation (case mapping, translate, replace,
+    regex substitution, Unicode normalisation) of the formula in front of the lexer - it would also transform what is written inside
+    quoted literals, so the text operand is no longer the text that was written."""
+    from .. import report
+    tmp = report.Result('C05')
+    sites = []
+    _r9(model, tmp, c, collect=sites)
+    n = 0
+    for k, m, f, call, arg in sites:
+        hit = content_transform(model, m, f, arg)
+        n += 1
+        res.ob(R, fmt(k), 'text handed to %s' % src(call.func), hit is None, hit or 'no whole-text transformation on the way')
+        if hit:
+            res.violation(R, '%s:%s:literal-text-rewritten' % k, m.where(call),
+                          'the formula is transformed as a whole before it is lexed (%s): the transformation applies inside quoted literals '
+                          'as well, so %s is no longer the text written in the formula (the same text supplied through a variable or a cell '
+                          'stays as it is, and the two disagree)' % (hit, what), func=k[1])
+    if not sites:
+        res.ob(R, 'package', 'the formula text reaches the lexer as written (C05.R9 holds)', True)
+    return n
+
+
+def _r9(model, res, c, collect=None):
     """Every ply parse call takes its text argument straight from a parameter of the enclosing function, and every package call of
     that function passes its own parameter (or the text it was given) on in turn, up to the public parse().  Dropping surrounding
     whitespace is the one rewriting the whitespace rule makes harmless (R1: whitespace is a token of its own that is discarded)."""
@@ -584,6 +687,8 @@ def _r9(model, res, c):
                     break
         res.ob('R9', fmt(k), 'text argument of %s' % src(call)[:60], par is not None, src(arg)[:80])
         if par is None:
+            if collect is not None:
+                collect.append((k, m, f, call, arg))
             res.violation('R9', '%s:%s:text-rewritten' % k, m.where(call),
                           'the text handed to %s is %s, not the formula text this function was given: a pass that rewrites the formula in front '
                           'of the lexer also rewrites what is inside quoted literals and what separates the tokens - the lexical conventions are '
